@@ -148,6 +148,20 @@ def check(pid, tier, seed):
     mod = importlib.import_module('harness.' + pid.lower())
     rng = random.Random(seed)
     parts = list(mod.partitions(tier, seed))
+    quick_names = set()
+    if tier == 'thorough':
+        # thorough = every quick partition (run first) + the wider thorough partitions
+        qparts = list(mod.partitions('quick', seed))
+        qsrc = {p.name: p.source() for p in qparts}
+        quick_names = set(qsrc)
+        extra = []
+        for p in parts:
+            if p.name in qsrc:
+                if p.source() == qsrc[p.name] or p.expect == 'refuted':
+                    continue
+                p.name = p.name + '__t'
+            extra.append(p)
+        parts = qparts + extra
     names = [p.name for p in parts]
     assert len(set(names)) == len(names), 'duplicate partition names'
     meta = getattr(mod, 'META', {})
@@ -194,8 +208,11 @@ def check(pid, tier, seed):
         order = list(parts)
         rng.shuffle(order)
         if tier != 'thorough':
-            order.sort(key=lambda p: -p.timeout)      # quick: longest first; thorough: seeded shuffle so that
-                                                      # a wall-clock budget cuts a random subset
+            order.sort(key=lambda p: -p.timeout)      # quick: longest first
+        else:
+            # thorough: the quick partitions first, then a seeded shuffle of the wider ones, so that the
+            # wall-clock budget cuts a random subset of the extras only
+            order.sort(key=lambda p: 0 if p.name in quick_names else 1)
         results = {}
         with cf.ThreadPoolExecutor(max_workers=JOBS) as ex:
             # self-test of the modelling layer runs alongside (exit 3 on mismatch)
